@@ -302,10 +302,17 @@ def step (c : Ctx) (g : G) : Rec → Verdict
               | none => []
             -- after an interrupt a teardown task may start while its setup task is still running: what it
             -- reads from `teardown_funcs` is then [] or, once the setup function has returned, the final list
-            let altKept : List (List Td × Insts) := match setupOf tid with
+            let altKept0 : List (List Td × Insts) := match setupOf tid with
               | some sid => (g.running.filter (fun x => x.tid == sid)).map (fun x =>
                   (x.out.eff.kept, mergeInsts g.insts x.instsAtStart x.out.eff.insts))
               | none => []
+            -- … and consumers may still be running (D11): the per-thread objects they have created so far are
+            -- already in the factory's list.  Alternative: everything the running tasks create is visible.
+            let allRunning : Insts := g.running.foldl (fun acc x => mergeInsts acc x.instsAtStart x.out.eff.insts) g.insts
+            let altKept : List (List Td × Insts) :=
+              if g.defF.interrupted && (setupOf tid).isSome then
+                altKept0 ++ [(kept, allRunning)] ++ altKept0.map (fun ki => (ki.1, mergeInsts allRunning g.insts ki.2))
+              else altKept0
             let out := runTask c.P g.insts w tid run reason kept none
             let r : Running :=
               { task := t, tid := tid, worker := w, run := run, reason := reason, ctxSkip := ctxSkip, kept := kept, altKept := altKept,
